@@ -61,7 +61,7 @@ RULE = (
     "meets a registered interval of the same chromosome on a probed reference haplotype. norep: output_vcf with "
     "no_replacement on identifiable panels; non-trivial = two simulated haplotypes carry blocks of the same "
     "population on the same chromosome whose intervals share a position. params: 2-4 model populations x 0-3 unused "
-    "ones, labels derived from one another by 13 string relations, 1-4 simulated samples, counts n-1/n/n+1; non-trivial "
+    "ones, labels derived from one another by 14 string relations, 1-4 simulated samples, counts n-1/n/n+1; non-trivial "
     "= --no_replacement, some model population has n-1 or n lines and some other label of the file stands in a "
     "containment / case / shared-affix relation to a model label. cli: the command on 2-3 populations, 1-3 samples, 1-2 "
     "chromosomes, 1-3 model lines; non-trivial = --no_replacement and some population has n-1 or n lines. "
@@ -456,7 +456,7 @@ class Norep(Relation):
 LABEL_BASES = ["EUR", "AFR", "CEU", "YRI", "POP1", "AMR", "A", "pop", "Han", "x", "1", "10", "7", "2024", "EAS.N", "S-AS",
                "AFR_W", "Admix"]
 LABEL_RELATIONS = ["extends", "prefixed", "infix", "truncated", "tail", "case", "sibling-prefix", "sibling-suffix",
-                   "reversed", "doubled", "punctuated", "digits", "fresh"]
+                   "sibling-infix", "reversed", "doubled", "punctuated", "digits", "fresh"]
 
 
 def related_label(rng, a, kind):
@@ -481,6 +481,8 @@ def related_label(rng, a, kind):
         return a[:-1] + ("S" if a[-1] != "S" else "N") if len(a) > 1 else None
     if kind == "sibling-suffix":   # common suffix, neither contains the other (N_EUR / S_EUR)
         return ("S" if a[0] != "S" else "N") + a[1:] if len(a) > 1 else None
+    if kind == "sibling-infix":    # common infix, neither contains the other (N_EUR_1 / S_EUR_2)
+        return ("S" if a[0] != "S" else "N") + a[1:-1] + ("2" if a[-1] != "2" else "1") if len(a) > 2 else None
     if kind == "reversed":         # same characters, other order
         return a[::-1] if a[::-1] != a else None
     if kind == "doubled":
@@ -535,6 +537,8 @@ def string_relations(a, b):
             out.add("common-suffix")
         if sorted(a) == sorted(b):
             out.add("same-characters")
+        if any(a[i:i + 2] in b[1:-1] for i in range(1, len(a) - 2)):
+            out.add("common-infix")
     if a.isdigit() and b.isdigit():
         out.add("digits-only")
     if any(ch in "_-." for ch in a + b):
